@@ -92,7 +92,7 @@ pub open spec fn int_result(res: Result<Value>, op: BinaryOp, loc: Location, a: 
 SPEC = r"""
     ensures
         // ---- C16: out-of-domain operands are a type error naming the operator and both operands in order
-        !(op is Eq || op is Ne) && !in_domain(*op, *lhs, *rhs) ==> type_error(r, *op, *op_loc, *lhs, *rhs), // [C16:out_of_domain_operands_are_a_type_error_naming_the_operator_and_both_operand_types_in_order_at_the_operator]
+        !(op is Eq || op is Ne) && !in_domain(*op, *lhs, *rhs) ==> type_error(r, *op, *op_loc, *lhs, *rhs), // [C16_C18:out_of_domain_operands_are_a_type_error_at_the_operator_naming_the_operator_and_both_operand_types_in_order_at_the_operator]
         !(op is Eq || op is Ne) && in_domain(*op, *lhs, *rhs) ==> !type_error(r, *op, *op_loc, *lhs, *rhs)
             && (r matches Err(e) ==> inner(e) is IntOverflow), // [C16:documented_operand_types_are_accepted]
         // ---- C06: integer arithmetic is exact or an error; comparisons are mathematical
@@ -107,7 +107,7 @@ SPEC = r"""
             &&& (op is Gte ==> r == Ok::<Value, Error>(Value::Bool(a >= b)))
             &&& (op is Lt ==> r == Ok::<Value, Error>(Value::Bool(a < b)))
             &&& (op is Lte ==> r == Ok::<Value, Error>(Value::Bool(a <= b)))
-        }), // [C06:integer_results_are_mathematically_exact_when_they_fit_64_bits_and_otherwise_an_error_naming_operation_and_operands]
+        }), // [C06_C18:integer_results_are_mathematically_exact_when_they_fit_64_bits_and_otherwise_an_error_at_the_operator_naming_operation_and_operands]
         (lhs matches Value::Bool(a) && rhs matches Value::Bool(b)) ==> ({
             let a = lhs->Bool_0; let b = rhs->Bool_0;
             &&& (op is And ==> r == Ok::<Value, Error>(Value::Bool(a && b)))
